@@ -116,6 +116,55 @@ func (vc *VC) fresh(prefix, sort string) Term {
 
 func (vc *VC) note(s string) { vc.notes[s]++ }
 
+// groundIndexTerms: the index terms of array reads in a goal that mention no bound variable.
+// The universal assumptions made so far are additionally stated at these terms (instances of
+// statements already assumed), which is what the proof of a pointwise goal needs.
+func groundIndexTerms(goal Term, max int) []Term {
+	var out []Term
+	seen := map[Term]bool{}
+	var walk func(t Term)
+	walk = func(t Term) {
+		if len(out) >= max || !strings.HasPrefix(t, "(") {
+			return
+		}
+		args := sexprArgs(t)
+		if len(args) == 0 {
+			return
+		}
+		if args[0] == "select" && len(args) == 3 {
+			ix := args[2]
+			if !strings.Contains(ix, "!q") && !seen[ix] {
+				if _, isConst := isBigConst(ix); !isConst && !strings.HasPrefix(ix, "(str_id") {
+					seen[ix] = true
+					out = append(out, ix)
+				}
+			}
+		}
+		if args[0] == "forall" || args[0] == "exists" {
+			return
+		}
+		for _, a := range args[1:] {
+			walk(a)
+		}
+	}
+	walk(goal)
+	return out
+}
+
+func (vc *VC) instantiateForGoal(goal Term, sks []Term) {
+	var inst []Term
+	for _, sk := range sks {
+		inst = append(inst, sk, iSub(sk, "1"), iAdd(sk, "1"))
+	}
+	inst = append(inst, groundIndexTerms(goal, 24)...)
+	if len(inst) == 0 {
+		return
+	}
+	for _, g := range vc.univ {
+		g(inst)
+	}
+}
+
 // instantiateAt: every universal assumption made so far (loop invariants at their cut,
 // callee postconditions) is additionally stated at the given terms (and their neighbours).
 // Sound: these are instances of statements already assumed.
@@ -309,6 +358,18 @@ func (vc *VC) havocFam(st *State, key string) Term {
 	n := vc.fresh(key, sort)
 	st.heap[key] = n
 	vc.preserveLocals(st, key, sort, old, n)
+	return n
+}
+
+// havocFamRaw: a fresh version with no preservation at all (loop cuts: the body assigned
+// something in this family and we do not know where).
+func (vc *VC) havocFamRaw(st *State, key string) Term {
+	sort := vc.famSort[key]
+	if sort == "" {
+		return ""
+	}
+	n := vc.fresh(key, sort)
+	st.heap[key] = n
 	return n
 }
 
